@@ -1,15 +1,22 @@
 import Driver.Common
 import Sourmash.Model.Similarity
 import Sourmash.Spec.Similarity
+import Sourmash.Model.MinHash
 /-!
 C05 driver.  Request lines (see `harness/src/bin/c05.rs`):
 
-  sk a|b <scaled> <num> <ksize> <dna|protein|dayhoff|hp> <seed> <track 0|1> <mins> <abunds>
+  sk <x> <scaled> <num> <ksize> <dna|protein|dayhoff|hp> <seed> <track 0|1> <mins> <abunds>
   isz|isect|jac|jacx|jacv|ang|angin|angone|angzero  V|T ab|ba
   cc V|T ab|ba <downsample 0|1>
   sim V|T ab|ba <ignore_abundance 0|1> <downsample 0|1>
   cmp|cmpv sig|store|large sim|cont ab|ba
   search sig|store sim|cont ab|ba <threshold bits>
+  ffi jac|ang|ius <xy> ; ffi cc <xy> <ds> ; ffi sim <xy> <ign> <ds>      (C API, vector-backed handles)
+  addab|setab <x> <h> <n> ; rm <x> <h> ; clear <x> ; merge <x> <y> ; md5 <x> ; clone <x> <z>   (history)
+
+Sketch names are single letters and every order word names two of them (`ab`, `ba`, `cb`, …).  The
+state is tracked op by op (`Ent`); model and spec columns of every comparison are computed from the
+CURRENT contents of the container the request names.
 
 model column: the executable model of `Sourmash.Model.Similarity` (integer core, then the float tail
 over Lean `Float`); spec column: the set-level definitions of `Sourmash.Spec.Similarity`
@@ -17,9 +24,29 @@ over Lean `Float`); spec column: the set-level definitions of `Sourmash.Spec.Sim
 -/
 open Driver Similarity
 
+/-- one named sketch of a case: the parameter block that `check_compatible` reads plus the CURRENT
+    contents of both real objects, tracked op by op with the list functions of C01's model
+    (`MH.Vec` = `KmerMinHash`, `MH.Tree` = `KmerMinHashBTree`, md5 cache field included) -/
+structure Ent where
+  hf : Nat
+  seed : Nat
+  v : MH.Vec
+  t : MH.Tree
+
 structure St where
-  a : Option Sketch := none
-  b : Option Sketch := none
+  sk : List (String × Ent) := []
+
+def St.get (st : St) (n : String) : Option Ent := st.sk.lookup n
+
+def St.put (st : St) (n : String) (e : Ent) : St :=
+  { sk := (n, e) :: st.sk.filter (fun p => p.1 != n) }
+
+/-- the operand the comparison functions see: the current contents of the chosen container -/
+def Ent.sketch (e : Ent) : Container → Sketch
+  | .vec => { num := e.v.num, ksize := e.v.ksize, hf := e.hf, seed := e.seed, maxHash := e.v.maxHash,
+              mins := e.v.mins, abunds := e.v.abunds }
+  | .tree => { num := e.t.num, ksize := e.t.ksize, hf := e.hf, seed := e.seed, maxHash := e.t.maxHash,
+               mins := e.t.mins, abunds := e.t.abundVals }
 
 def hex16 (u : UInt64) : String :=
   String.ofList ((List.range 16).map (fun i => hexDigit ((u.toNat >>> (4 * (15 - i))) % 16)))
@@ -51,10 +78,14 @@ def b01 (b : Bool) : String := if b then "1" else "0"
 
 def container (s : String) : Container := if s == "T" then .tree else .vec
 
-def order (st : St) (o : String) : Option (Sketch × Sketch) :=
-  match st.a, st.b with
-  | some a, some b => some (if o == "ba" then (b, a) else (a, b))
-  | _, _ => none
+/-- the operands named by a two-letter order word, read off the chosen container -/
+def order (st : St) (c : Container) (o : String) : Option (Sketch × Sketch) :=
+  match o.toList with
+  | [p, q] =>
+    match st.get (String.singleton p), st.get (String.singleton q) with
+    | some x, some y => some (x.sketch c, y.sketch c)
+    | _, _ => none
+  | _ => none
 
 def isOk {ε α : Type} : Except ε α → Bool
   | .ok _ => true
@@ -114,110 +145,208 @@ def cmpSpec (which : String) (x y : Sketch) : Option (Nat × Nat) :=
 def cmpSpecF (which : String) (p : Nat × Nat) : Float :=
   if which == "sim" then jaccardTail p.1 p.2 else containmentTail p.1 p.2
 
+/-! ### the comparison requests (native and through the C API) -/
+
+def opIsz (c : Container) (x y : Sketch) : Resp :=
+  { model := match intersectionSize c x y with
+             | .ok p => showPair p
+             | .error e => showErr e,
+    spec := match specPair x y with
+            | some p => showPair p
+            | none => "-" }
+
+def opIsect (c : Container) (x y : Sketch) : Resp :=
+  { model := match intersection c x y with
+             | .ok (l, s) => showNats l ++ " " ++ toString s
+             | .error e => showErr e,
+    spec := match specPair x y with
+            | some (_, s) =>
+              let i := SimilaritySpec.inter x.mins y.mins
+              let i := if x.num == 0 then i else
+                i.filter (fun h => (SimilaritySpec.bottom x.num (SimilaritySpec.union x.mins y.mins)).contains h)
+              showNats i ++ " " ++ toString s
+            | none => "-" }
+
+def opJac (c : Container) (x y : Sketch) : Resp :=
+  { model := match jaccardCore c x y with
+             | .ok r => showF (simTail r)
+             | .error e => showErr e,
+    spec := match specJaccard x y with
+            | some (cm, s) => showF (jaccardTail cm s : Float)
+            | none => "-" }
+
+/-- the same request as `jac`, answered by the exact integer model of binary64 division -/
+def opJacx (c : Container) (x y : Sketch) : Resp :=
+  { model := match jaccardCore c x y with
+             | .ok (.jaccard cm s) => jaccardExact cm s
+             | .ok r => showF (simTail r)
+             | .error e => showErr e,
+    spec := match specJaccard x y with
+            | some (cm, s) => jaccardExact cm s
+            | none => "-" }
+
+def opJacv (c : Container) (x y : Sketch) : Resp :=
+  { model := match jaccardCore c x y with
+             | .ok r => let v : Float := simTail r; verdict v (v == 1.0) (v == 0.0)
+             | .error e => showErr e,
+    spec := match specJaccard x y with
+            | some (cm, s) => "1 " ++ b01 (cm == s) ++ " " ++ b01 (cm == 0)
+            | none => "-" }
+
+def opAng (c : Container) (x y : Sketch) : Resp :=
+  { model := match angularCore c x y with
+             | .ok r => showF (simTail r)
+             | .error e => showErr e,
+    spec := if !isOk (checkCompatible x y) then "-"
+            else match specTriple x y with
+              | some (p, a, b) => showF (angularTail p a b : Float)
+              | none => showErr .NeedsAbundanceTracking }
+
+def opAngV (op : String) (c : Container) (x y : Sketch) : Resp :=
+  let m := match angularCore c x y with
+    | .ok r =>
+      let v : Float := simTail r
+      if op == "angin" then b01 (0.0 ≤ v && v ≤ 1.0)
+      else if op == "angone" then b01 (Float.abs (v - 1.0) ≤ 1e-7)
+      else b01 (v == 0.0)
+    | .error e => showErr e
+  let s := match specTriple x y with
+    | some (p, a, b) =>
+      if op == "angin" then "1"
+      else if op == "angone" then
+        -- equal, non-zero abundance vectors: the cosine is 1
+        if x.mins == y.mins && x.abunds == y.abunds && a != 0 then "1" else "-"
+      else if p == 0 || a == 0 || b == 0 then "1" else "-"
+    | none => "-"
+  { model := m, spec := s }
+
+def opCc (x y : Sketch) (ds : Bool) : Resp :=
+  { model := match countCommon x y ds with
+             | .ok n => toString n ++ " " ++ toString x.size
+             | .error e => showErr e,
+    spec := if isOk (checkCompatible x y) then showPair (SimilaritySpec.containmentPair x.mins y.mins) else "-" }
+
+def opSim (c : Container) (x y : Sketch) (ign ds : Bool) : Resp :=
+  { model := match similarityCore c x y ign ds with
+             | .ok r => showF (simTail r)
+             | .error e => showErr e,
+    spec := if isOk (checkCompatible x y) && x.tracked && y.tracked && !ign then
+              -- both tracked, abundance not ignored: the angular definition, refusal impossible
+              specSim x y false
+            else specSim x y true }
+
+/-- `kmerminhash_intersection_union_size`: every error of `intersection_size` is swallowed into `0 0` -/
+def opIus (x y : Sketch) : Resp :=
+  { model := showPair (ffiIntersectionUnionSize x y),
+    spec := match specPair x y with
+            | some p => showPair p
+            | none => "-" }
+
+/-! ### the history requests -/
+
+def showEnt (e : Ent) : String :=
+  "V:" ++ showSketch (e.sketch .vec) ++ " T:" ++ showSketch (e.sketch .tree)
+
+/-- apply a mutation of both containers to the named sketch; the answer is what they hold afterwards.
+    The property says nothing about these requests (spec `-`): they are C01's. -/
+def mutate (st : St) (n : String) (f : Ent → Ent) : St × Resp :=
+  match st.get n with
+  | none => (st, { model := "no-sketch" })
+  | some e => let e' := f e; (st.put n e', { model := showEnt e' })
+
 def stepC05 (st : St) (ws : List String) : St × Resp :=
   match ws with
   | "case" :: _ => (st, { model := "ok" })
   | ["sk", w, sc, num, k, hf, seed, tr, mins, ab] =>
-    let s : Sketch := {
-      num := num.toNat!, ksize := k.toNat!, hf := hfCode hf, seed := seed.toNat!,
-      maxHash := Scaled.maxHashForScaled sc.toNat!, mins := natList mins,
-      abunds := if tr == "1" then some (natList ab) else none }
-    let st := if w == "a" then { st with a := some s } else { st with b := some s }
-    let r := "V:" ++ showSketch s ++ " T:" ++ showSketch s
-    (st, { model := r, spec := r })
-  | [op, c, o] =>
-    match order st o with
+    let mins := natList mins
+    let ab := natList ab
+    let tracked := tr == "1"
+    let mh := Scaled.maxHashForScaled sc.toNat!
+    -- the harness overwrites with `set_hash_with_abundance(h, 0)` and converts a Clone of the vector
+    -- into the tree when a 0 abundance is asked for: the vector's md5 cache is then filled
+    let zeros := tracked && ab.any (· == 0)
+    let v : MH.Vec := { num := num.toNat!, maxHash := mh, ksize := k.toNat!, mins := mins,
+                        abunds := if tracked then some ab else none,
+                        md5 := if zeros then some (Md5.digest k.toNat! mins) else none }
+    let t : MH.Tree := { num := num.toNat!, maxHash := mh, ksize := k.toNat!, mins := mins,
+                         abunds := if tracked then some (mins.zip ab) else none,
+                         currentMax := MH.lastOr0 mins, md5 := none }
+    let e : Ent := { hf := hfCode hf, seed := seed.toNat!, v := v, t := t }
+    let r := showEnt e
+    (st.put w e, { model := r, spec := r })
+  | ["addab", n, h, a] => mutate st n (fun e => { e with v := e.v.add h.toNat! a.toNat!, t := e.t.add h.toNat! a.toNat! })
+  | ["setab", n, h, a] =>
+    mutate st n (fun e => { e with v := e.v.set h.toNat! a.toNat!, t := (e.t.remove h.toNat!).add h.toNat! a.toNat! })
+  | ["rm", n, h] => mutate st n (fun e => { e with v := e.v.remove h.toNat!, t := e.t.remove h.toNat! })
+  | ["clear", n] => mutate st n (fun e => { e with v := e.v.clear, t := e.t.clear })
+  | ["md5", n] =>
+    match st.get n with
+    | none => (st, { model := "no-sketch" })
+    | some e =>
+      let (dv, v') := e.v.md5sum
+      let (dt, t') := e.t.md5sum
+      (st.put n { e with v := v', t := t' },
+       { model := "V:" ++ Md5.hex dv ++ " T:" ++ Md5.hex dt })
+  | ["clone", n, z] =>
+    match st.get n with
+    | none => (st, { model := "no-sketch" })
+    | some e =>
+      let (cv, v') := e.v.clone
+      let (ct, t') := e.t.clone
+      let c : Ent := { e with v := cv, t := ct }
+      (((st.put n { e with v := v', t := t' }).put z c), { model := showEnt c })
+  | ["merge", n, m] =>
+    if n == m then (st, { model := "no-sketch" }) else
+    match st.get n, st.get m with
+    | some x, some y =>
+      -- `check_compatible` first (same parameter block in both containers), then the container's merge
+      let chk (c : Container) := checkCompatible (x.sketch c) (y.sketch c)
+      let x' : Ent := { x with v := if isOk (chk .vec) then x.v.merge y.v else x.v,
+                               t := if isOk (chk .tree) then x.t.merge y.t else x.t }
+      let show1 (c : Container) := match chk c with
+        | .ok _ => showSketch (x'.sketch c)
+        | .error e => showErr e
+      (st.put n x', { model := "V:" ++ show1 .vec ++ " T:" ++ show1 .tree })
+    | _, _ => (st, { model := "no-sketch" })
+  | ["ffi", what, o] =>
+    match order st .vec o with
     | none => (st, { model := "no-sketch" })
     | some (x, y) =>
-      let c := container c
-      if op == "isz" then
-        (st, { model := match intersectionSize c x y with
-                        | .ok p => showPair p
-                        | .error e => showErr e,
-               spec := match specPair x y with
-                       | some p => showPair p
-                       | none => "-" })
-      else if op == "isect" then
-        (st, { model := match intersection c x y with
-                        | .ok (l, s) => showNats l ++ " " ++ toString s
-                        | .error e => showErr e,
-               spec := match specPair x y with
-                       | some (_, s) =>
-                         let i := SimilaritySpec.inter x.mins y.mins
-                         let i := if x.num == 0 then i else
-                           i.filter (fun h => (SimilaritySpec.bottom x.num (SimilaritySpec.union x.mins y.mins)).contains h)
-                         showNats i ++ " " ++ toString s
-                       | none => "-" })
-      else if op == "jac" then
-        (st, { model := match jaccardCore c x y with
-                        | .ok r => showF (simTail r)
-                        | .error e => showErr e,
-               spec := match specJaccard x y with
-                       | some (cm, s) => showF (jaccardTail cm s : Float)
-                       | none => "-" })
-      else if op == "jacx" then
-        -- the same request as `jac`, answered by the exact integer model of binary64 division
-        (st, { model := match jaccardCore c x y with
-                        | .ok (.jaccard cm s) => jaccardExact cm s
-                        | .ok r => showF (simTail r)
-                        | .error e => showErr e,
-               spec := match specJaccard x y with
-                       | some (cm, s) => jaccardExact cm s
-                       | none => "-" })
-      else if op == "jacv" then
-        (st, { model := match jaccardCore c x y with
-                        | .ok r => let v : Float := simTail r; verdict v (v == 1.0) (v == 0.0)
-                        | .error e => showErr e,
-               spec := match specJaccard x y with
-                       | some (cm, s) => "1 " ++ b01 (cm == s) ++ " " ++ b01 (cm == 0)
-                       | none => "-" })
-      else if op == "ang" then
-        (st, { model := match angularCore c x y with
-                        | .ok r => showF (simTail r)
-                        | .error e => showErr e,
-               spec := if !isOk (checkCompatible x y) then "-"
-                       else match specTriple x y with
-                         | some (p, a, b) => showF (angularTail p a b : Float)
-                         | none => showErr .NeedsAbundanceTracking })
-      else if op == "angin" || op == "angone" || op == "angzero" then
-        let m := match angularCore c x y with
-          | .ok r =>
-            let v : Float := simTail r
-            if op == "angin" then b01 (0.0 ≤ v && v ≤ 1.0)
-            else if op == "angone" then b01 (Float.abs (v - 1.0) ≤ 1e-7)
-            else b01 (v == 0.0)
-          | .error e => showErr e
-        let s := match specTriple x y with
-          | some (p, a, b) =>
-            if op == "angin" then "1"
-            else if op == "angone" then
-              -- equal, non-zero abundance vectors: the cosine is 1
-              if x.mins == y.mins && x.abunds == y.abunds && a != 0 then "1" else "-"
-            else if p == 0 || a == 0 || b == 0 then "1" else "-"
-          | none => "-"
-        (st, { model := m, spec := s })
+      if what == "jac" then (st, opJac .vec x y)
+      else if what == "ang" then (st, opAng .vec x y)
+      else if what == "ius" then (st, opIus x y)
       else (st, { model := "bad-op" })
-  | ["cc", _, o, ds] =>
-    match order st o with
+  | ["ffi", "cc", o, ds] =>
+    match order st .vec o with
     | none => (st, { model := "no-sketch" })
-    | some (x, y) =>
-      (st, { model := match countCommon x y (ds == "1") with
-                      | .ok n => toString n ++ " " ++ toString x.size
-                      | .error e => showErr e,
-             spec := if isOk (checkCompatible x y) then showPair (SimilaritySpec.containmentPair x.mins y.mins) else "-" })
+    | some (x, y) => (st, opCc x y (ds == "1"))
+  | ["ffi", "sim", o, ign, ds] =>
+    match order st .vec o with
+    | none => (st, { model := "no-sketch" })
+    | some (x, y) => (st, opSim .vec x y (ign == "1") (ds == "1"))
+  | ["cc", c, o, ds] =>
+    match order st (container c) o with
+    | none => (st, { model := "no-sketch" })
+    | some (x, y) => (st, opCc x y (ds == "1"))
   | ["sim", c, o, ign, ds] =>
-    match order st o with
+    match order st (container c) o with
+    | none => (st, { model := "no-sketch" })
+    | some (x, y) => (st, opSim (container c) x y (ign == "1") (ds == "1"))
+  | ["search", kind, which, o, thr] =>
+    -- `Sketch::MinHash` of the vector-backed object
+    match order st .vec o with
     | none => (st, { model := "no-sketch" })
     | some (x, y) =>
-      (st, { model := match similarityCore (container c) x y (ign == "1") (ds == "1") with
-                      | .ok r => showF (simTail r)
-                      | .error e => showErr e,
-             spec := if isOk (checkCompatible x y) && x.tracked && y.tracked && ign != "1" then
-                       -- both tracked, abundance not ignored: the angular definition, refusal impossible
-                       specSim x y false
-                     else specSim x y true })
+      let t := Float.ofBits (UInt64.ofNat (thr.toNat!))
+      let _ := kind
+      (st, { model := match cmpModel which x y with
+                      | some v => toString (decide (v > t))
+                      | none => "PANIC",
+             spec := match cmpSpec which x y with
+                     | some p => toString (decide (cmpSpecF which p > t))
+                     | none => "-" })
   | [op, kind, which, o] =>
-    match order st o with
+    match order st .vec o with
     | none => (st, { model := "no-sketch" })
     | some (x, y) =>
       if kind == "large" then (st, { model := "PANIC" })   -- `unimplemented!()` for LargeMinHash
@@ -233,18 +362,19 @@ def stepC05 (st : St) (ws : List String) : St × Resp :=
                        | some (cm, n) => "1 " ++ b01 (cm == n) ++ " " ++ b01 (cm == 0)
                        | none => "-" })
       else (st, { model := "bad-op" })
-  | ["search", kind, which, o, thr] =>
-    match order st o with
+  | [op, c, o] =>
+    let c := container c
+    match order st c o with
     | none => (st, { model := "no-sketch" })
     | some (x, y) =>
-      let t := Float.ofBits (UInt64.ofNat (thr.toNat!))
-      let _ := kind
-      (st, { model := match cmpModel which x y with
-                      | some v => toString (decide (v > t))
-                      | none => "PANIC",
-             spec := match cmpSpec which x y with
-                     | some p => toString (decide (cmpSpecF which p > t))
-                     | none => "-" })
+      if op == "isz" then (st, opIsz c x y)
+      else if op == "isect" then (st, opIsect c x y)
+      else if op == "jac" then (st, opJac c x y)
+      else if op == "jacx" then (st, opJacx c x y)
+      else if op == "jacv" then (st, opJacv c x y)
+      else if op == "ang" then (st, opAng c x y)
+      else if op == "angin" || op == "angone" || op == "angzero" then (st, opAngV op c x y)
+      else (st, { model := "bad-op" })
   | _ => (st, { model := "bad-op" })
 
 def main : IO Unit := Driver.run ({} : St) stepC05
